@@ -645,41 +645,22 @@ func (m *collection) get(key []byte, readOptions ReadOptions) ([]byte, error) {
 
 	m.m.Unlock()
 
-	var val []byte
-	var err error
-
-	// Avoid going to the lower-level snapshot for the
-	// stackDirtyTop/Mid/Base/Clean Get()s since their lower level
-	// snapshots may be modified concurrently by
-	// collection_merger/persister.
-	readOptionsSLL := readOptions
-	readOptionsSLL.SkipLowerLevel = true
-
-	// Look for the key-value in the collection's segment stacks
-	// starting with the latest (stackDirtyTop), followed by
-	// stackDirtyMid, stackDirtyBase, stackClean, and if still not
-	// found look for it in the lowerLevelSnapshot.
-	if stackDirtyTop != nil {
-		val, err = stackDirtyTop.Get(key, readOptionsSLL)
+	// Look the key up in one combined stack (oldest to newest: clean,
+	// dirty base, dirty mid, dirty top) chained to the lower-level
+	// snapshot, exactly as a Snapshot() would, so that a deletion or a
+	// merge operand in a newer section is honored instead of falling
+	// through to an older section.
+	ss := &segmentStack{options: m.options, lowerLevelSnapshot: lowerLevelSnapshot}
+	for _, stack := range []*segmentStack{
+		stackClean, stackDirtyBase, stackDirtyMid, stackDirtyTop} {
+		if stack != nil {
+			ss.a = append(ss.a, stack.a...)
+		}
 	}
 
-	if val == nil && err == nil && stackDirtyMid != nil {
-		val, err = stackDirtyMid.Get(key, readOptionsSLL)
-	}
-
-	if val == nil && err == nil && stackDirtyBase != nil {
-		val, err = stackDirtyBase.Get(key, readOptionsSLL)
-	}
-
-	if val == nil && err == nil && stackClean != nil {
-		val, err = stackClean.Get(key, readOptionsSLL)
-	}
+	val, err := ss.Get(key, readOptions)
 
 	if lowerLevelSnapshot != nil {
-		if val == nil && err == nil {
-			val, err = lowerLevelSnapshot.Get(key, readOptions)
-		}
-
 		lowerLevelSnapshot.decRef()
 	}
 
